@@ -34,6 +34,7 @@ architecture arch_test_stack_01 of test_stack_01 is
   signal buffer_empty_1 : std_logic := '1';
   signal buffer_full_1 : std_logic := '0';
   signal buffer_size_1 : unsigned(3 downto 0) := unsigned'("0000");
+  signal stack_cnt : unsigned(2 downto 0) := unsigned'("000");
   signal stack_index : unsigned(2 downto 0) := unsigned'("000");
   type array_type is array(0 to 4) of std_logic_vector(0 downto 0);
   signal stack_stack_mem : array_type;
@@ -53,26 +54,36 @@ begin
     variable inp : std_logic;
     variable temp2 : std_logic_vector(1 downto 0);
     variable temp3 : unsigned(2 downto 0);
-    variable temp4 : boolean;
-    variable temp5 : unsigned(2 downto 0);
-    variable temp6 : boolean;
-    variable temp7 : boolean;
-    variable index : unsigned(2 downto 0);
-    variable temp8 : unsigned(2 downto 0);
-    variable temp9 : std_logic;
+    variable temp4 : unsigned(2 downto 0);
+    variable temp5 : boolean;
+    variable temp6 : unsigned(2 downto 0);
+    variable temp7 : unsigned(2 downto 0);
+    variable temp8 : boolean;
+    variable temp9 : unsigned(2 downto 0);
     variable temp10 : boolean;
     variable temp11 : boolean;
-    variable temp12 : boolean;
+    variable temp12 : unsigned(2 downto 0);
     variable temp13 : unsigned(2 downto 0);
     variable temp14 : boolean;
-    variable temp15 : boolean;
+    variable index : unsigned(2 downto 0);
+    variable temp15 : unsigned(2 downto 0);
+    variable temp16 : std_logic;
+    variable temp17 : boolean;
+    variable temp18 : boolean;
+    variable temp19 : boolean;
+    variable temp20 : unsigned(2 downto 0);
+    variable temp21 : boolean;
+    variable temp22 : boolean;
+    variable temp23 : unsigned(2 downto 0);
+    variable temp24 : boolean;
     variable index1 : unsigned(2 downto 0);
-    variable temp16 : unsigned(2 downto 0);
-    variable temp17 : std_logic;
+    variable temp25 : unsigned(2 downto 0);
+    variable temp26 : std_logic;
   begin
     if rising_edge(clk) then
       temp := reset = '1';
       if temp then
+        stack_cnt <= unsigned'("000");
         stack_index <= unsigned'("000");
         buffer_out_1 <= '0';
         buffer_empty_1 <= '1';
@@ -86,38 +97,69 @@ begin
           temp2 := (inp) & (inp);
           temp3 := stack_index;
           stack_stack_mem(to_integer(temp3)) <= std_logic_vector(temp2(0 downto 0));
-          temp4 := (stack_index < 5);
-          assert temp4 report "push to full stack";
-          temp5 := (stack_index) + (1);
-          stack_index <= temp5;
+          temp4 := (stack_cnt) + (1);
+          temp5 := (stack_cnt = 5);
+          case temp5 is
+            when true =>
+              temp6 := unsigned'("101");
+            when others =>
+              temp6 := temp4;
+          end case;
+          stack_cnt <= temp6;
+          temp7 := (stack_index) + (1);
+          temp8 := (stack_index /= 4);
+          case temp8 is
+            when true =>
+              temp9 := temp7;
+            when others =>
+              temp9 := unsigned'("000");
+          end case;
+          stack_index <= temp9;
         end if;
-        temp6 := pop_1 = '1';
-        if temp6 then
-          temp7 := (stack_index /= 0);
-          assert temp7 report "pop from empty stack";
-          index := (stack_index) - (1);
-          stack_index <= index;
-          temp8 := index;
-          temp9 := stack_stack_mem(to_integer(temp8))(0);
-          buffer_out_1 <= temp9;
-        end if;
-        temp10 := reset_1 = '1';
+        temp10 := pop_1 = '1';
         if temp10 then
-          stack_index <= unsigned'("000");
+          temp11 := (stack_cnt /= 0);
+          assert temp11 report "pop from empty stack";
+          temp12 := (stack_cnt) - (1);
+          stack_cnt <= temp12;
+          temp13 := (stack_index) - (1);
+          temp14 := (stack_index = 0);
+          case temp14 is
+            when true =>
+              index := unsigned'("100");
+            when others =>
+              index := temp13;
+          end case;
+          stack_index <= index;
+          temp15 := index;
+          temp16 := stack_stack_mem(to_integer(temp15))(0);
+          buffer_out_1 <= temp16;
         end if;
-        temp11 := (stack_index = 0);
-        buffer_empty_1 <= cohdl_bool_to_std_logic(temp11);
-        temp12 := (stack_index = 5);
-        buffer_full_1 <= cohdl_bool_to_std_logic(temp12);
-        temp13 := stack_index;
-        buffer_size_1 <= resize(temp13, 4);
-        temp14 := (stack_index = 0);
-        temp15 := not (temp14);
-        if temp15 then
-          index1 := (stack_index) - (1);
-          temp16 := index1;
-          temp17 := stack_stack_mem(to_integer(temp16))(0);
-          buffer_front_1 <= temp17;
+        temp17 := reset_1 = '1';
+        if temp17 then
+          stack_index <= unsigned'("000");
+          stack_cnt <= unsigned'("000");
+        end if;
+        temp18 := (stack_cnt = 0);
+        buffer_empty_1 <= cohdl_bool_to_std_logic(temp18);
+        temp19 := (stack_cnt = 5);
+        buffer_full_1 <= cohdl_bool_to_std_logic(temp19);
+        temp20 := stack_cnt;
+        buffer_size_1 <= resize(temp20, 4);
+        temp21 := (stack_cnt = 0);
+        temp22 := not (temp21);
+        if temp22 then
+          temp23 := (stack_index) - (1);
+          temp24 := (stack_index = 0);
+          case temp24 is
+            when true =>
+              index1 := unsigned'("100");
+            when others =>
+              index1 := temp23;
+          end case;
+          temp25 := index1;
+          temp26 := stack_stack_mem(to_integer(temp25))(0);
+          buffer_front_1 <= temp26;
         else
           buffer_front_1 <= '0';
         end if;
